@@ -12,7 +12,7 @@
 (* then JoinAll, FixupMove*, Wrap and the projected Result.                *)
 (* Code numbers columns, supernodes and threads from 0; the model from 1.  *)
 (***************************************************************************)
-EXTENDS SluPipe, SluLU, Json, IOUtils
+EXTENDS SluPipe, SluLU, SluPivot, Json, IOUtils
 
 Tr  == ndJsonDeserialize(IOEnv.TRACE)
 Cfg == Tr[1]
@@ -72,8 +72,13 @@ TLsubAlloc == Ev("LsubAlloc") /\ Keepslot /\ LET p == E.p IN
             /\ nextl = E.a[3] + 1
             /\ E.a[3] + E.a[2] <= E.a[4]          \* never past nzlmax
             /\ (IF pc[p] = "salloc" THEN jcol[p] ELSE jj[p]) = Col(E.a[1])
-TSnFact == Ev("SnFact") /\ Keepslot /\ LET p == E.p IN
-            /\ SnFactZ(p, E.a[3]) /\ jcol[p] = Col(E.a[1]) /\ PSize[jcol[p]] = E.a[2]
+TSnPivot == Ev("SnPivot") /\ Keepslot /\ LET p == E.p IN
+            /\ SnPivotZ(p, E.a[3] # 0) /\ jj[p] = Col(E.a[1])
+            /\ (E.a[3] # 0 => E.a[3] = jj[p])
+\* the supernode reports its first zero-pivot column (0 if none)
+TSnFact == Ev("SnFact") /\ Keepslot /\ LET p == E.p  zs == zset \cap MyCols(p) IN
+            /\ SnFact(p) /\ jcol[p] = Col(E.a[1]) /\ PSize[jcol[p]] = E.a[2]
+            /\ E.a[3] = (IF zs = {} THEN 0 ELSE CHOOSE m \in zs : \A x \in zs : m <= x)
 TSnRelease == Ev("SnRelease") /\ Keepslot /\ LET p == E.p IN SnRelease(p) /\ jcol[p] = Col(E.a[1])
 TMark == Ev("Mark") /\ Keepslot /\ LET p == E.p IN
             /\ MarkBusy(p) /\ jcol[p] = Col(E.a[1])
@@ -126,12 +131,14 @@ TWrap == Ev("Wrap") /\ Keepslot /\ Wrap /\ nsuper = E.a[3] + 1 /\ minfo = E.a[4]
 ResultOK(R) == /\ R.info = minfo
                /\ R.thrAfter = R.thrBefore                       \* C04: no thread left
                /\ R.Aunchanged = 1
-               /\ ("inside" \in DOMAIN R => R.inside = 1)      \* C14: L/U storage inside the caller's workspace
+               /\ ("inside" \in DOMAIN R => R.inside = 1)
+               /\ (R.info >= 0 /\ R.info <= R.n => IsPerm(R.permr, R.n) /\ IsPerm(R.permc, R.n))   \* C06: outputs safe to inspect      \* C14: L/U storage inside the caller's workspace
                /\ (R.info = 0 =>
                      /\ R.nsuper = nsuper
                      /\ R.extract = 0
                      /\ R.recon <= 1000                          \* C02 |PrAPc - LU| <= gamma(n)|L||U|
                      /\ R.maxl <= 1000                           \* C02 |l_ij| <= 1/u
+                     /\ ("pivsteps" \in DOMAIN R => AllStepsOK(R.pivsteps, R.u1000))   \* C02 pivot policy at every step
                      /\ ("resid" \in DOMAIN R => R.sinfo = 0 /\ R.resid <= 1000)   \* C01
                      /\ ("supno" \in DOMAIN R =>
                            /\ WellFormedLU(R)                    \* C09
@@ -139,7 +146,7 @@ ResultOK(R) == /\ R.info = minfo
                            /\ \A s \in 1..nsuper : R.xsup[s] = xsupBeg[s] /\ R.xsupend[s] = xsupEnd[s]))
 TResult == Ev("Result") /\ Keepslot /\ mpc = "done" /\ (ResultOK(E) = TRUE) /\ UNCHANGED vars   \* "= TRUE": evaluate as a value, not as an action
 
-TNext == \/ TLoop \/ TExit \/ TSched \/ TNewNsuper \/ TLsubAlloc \/ TSnFact \/ TSnRelease \/ TMark
+TNext == \/ TLoop \/ TExit \/ TSched \/ TNewNsuper \/ TLsubAlloc \/ TSnPivot \/ TSnFact \/ TSnRelease \/ TMark
          \/ TDfsBegin \/ TDfsEnd \/ TWait \/ TClimb \/ TClimbWait \/ TBusyUpdBegin \/ TBusyUpdEnd
          \/ TJoin \/ TPivot \/ TRelease \/ TUAlloc \/ TPruneBegin \/ TPruneEnd \/ TColDone \/ TPanelDone
          \/ TLusupAlloc \/ TDynMap \/ TJoinAll \/ TFixupMove \/ TWrap \/ TResult
